@@ -106,8 +106,18 @@ VARIANTS = [
     # ---- C08
     V('c08-name-containment', 'C08', 'bad', 'R8.2', FT, "    ttype = T.Name, T.String.Symbol\n", "    ttype = T.Name\n"),
     V('c08-upper-outside', 'C08', 'bad', 'R8.1', FT, "            if ttype in self.ttype:\n                value = self.convert(value)\n            yield ttype, value", "            if ttype in self.ttype:\n                value = self.convert(value)\n            value = value.upper()\n            yield ttype, value"),
-    V('c08-width-plus1', 'C08', 'bad', 'R8.1', FT, "inner[:self.width]", "inner[:self.width + 1]"),
-    V('c08-no-separator', 'C08', 'bad', 'R8.3', FO, "                if prev_ is not None and not prev_.match(T.Punctuation, '('):\n                    tlist.tokens.insert(tidx, _get_insert_token(token))\n", ""),
+    V('c08-width-plus1', 'C08', 'bad', 'R8.8', FT, "                    if m.end() > self.width:", "                    if m.end() > self.width + 1:"),
+    V('c08-truncate-plain-slice', 'C08', 'bad', 'R8.8', FT, "value = ''.join((\"'\", inner[:end], self.char, \"'\"))", "value = ''.join((\"'\", inner[:self.width], self.char, \"'\"))", 'the defect fixed by 407de6f: the cut can fall inside an escaped quote'),
+    V('c08-truncate-two-quotes', 'C08', 'bad', 'R8.8', FT, "            inner = value[1:-1]\n", "            inner = value[2:-2] if value[:2] == \"''\" else value[1:-1]\n", 'the other half of 407de6f'),
+    V('c08-truncate-while-form', 'C08', 'ok', None, FT, "                end = 0\n                for m in re.finditer(r\"''|\\\\'|[^']\", inner):\n                    if m.end() > self.width:\n                        break\n                    end = m.end()\n", "                ends = [m.end() for m in re.finditer(r\"''|\\\\'|[^']\", inner)]\n                end = max([e for e in ends if e <= self.width], default=0)\n", 'the same cut computed with a comprehension'),
+    V('c08-no-separator', 'C08', 'bad', 'R8.3', FO, "                if prev_ is not None and not prev_.match(T.Punctuation, '('):\n                    tlist.tokens.insert(tidx, _get_insert_token(token))\n                else:", "                if True:"),
+    V('c08-no-resume-fix', 'C08', 'bad', 'R8.6', FO, "                    tidx -= 1\n                tlist.tokens.remove(token)", "                    pass\n                tlist.tokens.remove(token)", 'the defect fixed by 919bddc: the second of two adjacent comments survives'),
+    V('c08-hint-direct-children', 'C08', 'bad', 'R8.6', FO, "if any(t.ttype in sql_hints for t in token.flatten()):", "if any(t.ttype in sql_hints for t in token.tokens):", 'the other half of 919bddc: a nested hint is lost'),
+    V('c10-stripws-no-border-pass', 'C10', 'bad', 'R10.9', FO, "                if token.is_whitespace and last_was_ws:\n                    token.value = ''\n                last_was_ws = token.is_whitespace\n            while", "                last_was_ws = token.is_whitespace\n            while", 'the defect fixed by 05f5255'),
+    V('c10-stripws-paren-minus2', 'C10', 'bad', 'R10.9', FO, "        cidx, _ = tlist.token_next_by(m=sql.Parenthesis.M_CLOSE)\n", "        cidx = len(tlist.tokens) - 1\n", 'the other half of 05f5255: ")" assumed to be the last child'),
+    V('c15-accessor-no-guard', 'C15', 'bad', 'R15.6', S, "                try:\n                    if real_name:\n                        return token.get_real_name()\n                    return token.get_name()\n                except RecursionError as err:\n                    raise SQLParseError(\n                        'Maximum recursion depth exceeded') from err", "                if real_name:\n                    return token.get_real_name()\n                return token.get_name()", 'the defect fixed by a45b003'),
+    V('c18-cte-needs-identifier', 'C18', 'bad', 'R18.2', S, "                if token is not None and token.ttype == T.Keyword.DML:\n                    return token.normalized", "                if isinstance(token, (Identifier, IdentifierList)):\n                    tidx, token = self.token_next(tidx, skip_ws=True)\n                    if token is not None and token.ttype == T.Keyword.DML:\n                        return token.normalized", 'the defect fixed by 6660ed3'),
+    V('c18-cte-first-dml-any-level', 'C18', 'ok', None, S, "                if token is not None and token.ttype == T.Keyword.DML:\n                    return token.normalized", "                if token is None:\n                    break\n                if token.ttype == T.Keyword.DML:\n                    return token.normalized", 'explicit break'),
     V('c08-hint-dropped', 'C08', 'bad', 'R8.3', FO, "sql_hints = (T.Comment.Multiline.Hint, T.Comment.Single.Hint)", "sql_hints = (T.Comment.Multiline.Hint,)"),
     V('c08-remove-next', 'C08', 'bad', 'R8.3', FO, "                tlist.tokens.remove(token)\n", "                tlist.tokens.remove(token)\n                tlist.tokens.remove(next_) if next_ is not None and next_.is_whitespace else None\n"),
     V('c08-case-in-stmtprocess', 'C08', 'bad', 'R8.4', FM, "        stack.preprocess.append(\n            filters.KeywordCaseFilter(options['keyword_case']))", "        stack.postprocess.append(\n            filters.KeywordCaseFilter(options['keyword_case']))"),
